@@ -62,7 +62,7 @@ def g_code(c):
     if k == "interrupt":
         return "Interrupt"
     if k == "in":
-        return "(In %s %s %s %s %s)" % (g_icfg(c["cfg"]), g_code(c["body"]), glist([g_expr(e) for e in c["args"]]),
+        return "(Inp %s %s %s %s %s)" % (g_icfg(c["cfg"]), g_code(c["body"]), glist([g_expr(e) for e in c["args"]]),
                                         g_kwargs_e(c["kwargs"]), g_code(c["next"]))
     if k == "out":
         return "(Out %s %s %s %s %s)" % (g_ocfg(c["cfg"]), g_code(c["body"]), glist([g_expr(e) for e in c["args"]]),
@@ -423,3 +423,91 @@ def features_of_code(c):
 
 def deepcopy(x):
     return copy.deepcopy(x)
+
+
+# ---- the undecorated twin, evaluated on the harness side (tagged-JSON values; no playback code involved) ----
+class _Raise(Exception):
+    def __init__(self, ty):
+        self.ty = ty
+
+
+class _Interrupt(BaseException):
+    pass
+
+
+def _ev(e, env):
+    if "lit" in e:
+        return pv.canon_json(e["lit"])
+    n = e["var"]
+    return env[n] if n < len(env) else {"t": "none"}
+
+
+def twin_run(code, env=None):
+    """(outcome, trace) of the program with every decorator removed.  Values in canonical tagged JSON."""
+    trace = []
+
+    def call(c, env):
+        a = [_ev(e, env) for e in c["args"]]
+        kw = [[k, _ev(e, env)] for k, e in c["kwargs"]]
+        alias = c["cfg"]["alias"]
+        trace.append({"e": "begin", "alias": alias, "args": a, "kwargs": kw})
+        trace.append({"e": "body", "alias": alias, "args": a, "kwargs": kw})
+        try:
+            r = run(c["body"], a + [v for _, v in kw])
+        except _Raise as ex:
+            trace.append({"e": "call", "alias": alias, "o": {"o": "exn", "e": "user:" + ex.ty}})
+            raise
+        except _Interrupt:
+            trace.append({"e": "call", "alias": alias, "o": {"o": "int"}})
+            raise
+        trace.append({"e": "call", "alias": alias, "o": {"o": "val", "v": r}})
+        return r
+
+    def run(c, env):
+        while True:
+            k = c["k"]
+            if k == "ret":
+                return _ev(c["e"], env)
+            if k == "raise":
+                raise _Raise(c["ty"])
+            if k == "interrupt":
+                raise _Interrupt()
+            if k in ("in", "out"):
+                env = env + [call(c, env)]
+                c = c["next"]
+            elif k == "try":
+                try:
+                    return run(c["c"], env)
+                except _Raise:
+                    return run(c["h"], env)
+            elif k == "playdata":
+                env = env + [{"t": "none"}]
+                c = c["next"]
+            else:
+                c = c["next"]
+    try:
+        o = {"o": "val", "v": run(code, env or [])}
+    except _Raise as ex:
+        o = {"o": "exn", "e": "user:" + ex.ty}
+    except _Interrupt:
+        o = {"o": "int"}
+    return o, trace
+
+
+def canon_outcome(o):
+    return {"o": "val", "v": pv.canon_json(o["v"])} if o["o"] == "val" else o
+
+
+def canon_trace(tr):
+    out = []
+    for e in tr:
+        if e["e"] == "call":
+            out.append({"e": "call", "alias": e["alias"], "o": canon_outcome(e["o"])})
+        else:
+            out.append({"e": e["e"], "alias": e["alias"], "args": [pv.canon_json(x) for x in e["args"]],
+                        "kwargs": sorted([k, pv.canon_json(v)] for k, v in e["kwargs"])})
+    return out
+
+
+def has_stmt(c, kinds):
+    return any(n["k"] in kinds for n in walk(c))
